@@ -3,8 +3,8 @@ CONSTANTS
   MaxFaults = 1
   Depth = 3
   Slow = FALSE
-  Lean = TRUE
-  HandleInst <- HandleOne
+  Lean = FALSE
+  HandleInst <- HandleTwo
 INIT Init
 NEXT Next
 INVARIANTS TypeOK NamesOnce GetIsFirst ListingIsFirstDrivers FoundIsFirstMatch FoundOpenOrClosed NoPortWithError
